@@ -220,11 +220,17 @@ def cmd_run(prop, tier):
 
     for k, what in sorted(known_lines.items()):
         print('KNOWN-FINDING: property=%s %s' % (prop, what))
+    shown = set()
     for v in reported:
+        if v['label'] in shown and len(shown) >= 1 and sum(1 for _ in shown) and v['label'] in shown:
+            continue          # one line per distinct failing label; all replays are listed in the evidence file
+        shown.add(v['label'])
         print('VIOLATION property=%s replay=%s' % (prop, v['replay']))
         print('  label=%s shard=%s args=%s info=%s' % (v['label'], v['shard'], json.dumps(v['args']), json.dumps(v['info'])[:600]))
+    if len(reported) > len(shown):
+        print('  (%d further counterexamples with the same labels; see violations_reported in the evidence file)' % (len(reported) - len(shown)))
     for h in harness_errors[:4]:
-        print('HARNESS-ERROR: %s' % h[:1500], file=sys.stderr)
+        print('HARNESS-ERROR: %s' % h[:700], file=sys.stderr)
     if len(harness_errors) > 4:
         print('HARNESS-ERROR: ... and %d more' % (len(harness_errors) - 4), file=sys.stderr)
     if reported:
